@@ -5,8 +5,9 @@
     code that exists in verde/base/utils.py, verde/coordinates.py,
     verde/vector.py (read line by line); [true] = returns normally,
     [false] = raises.  *)
-From Coq Require Import List Bool Arith ZArith Lia.
-From Verde Require Import Lib.Verdict.
+From Coq Require Import List Bool Arith ZArith QArith Lia.
+From Verde Require Import Lib.Verdict Lib.Dyadic.
+Close Scope Q_scope.
 Import ListNotations.
 
 Definition shape := list nat.
@@ -81,6 +82,14 @@ Definition check_region (r : list Z) : bool :=
   | _ => false
   end.
 
+(** the same check on exact doubles (dyadics m*2^e): the comparisons of the
+    code are exact, there is no tolerance *)
+Definition check_region_d (r : list D) : bool :=
+  match r with
+  | [w; e; s; n] => dle w e && dle s n
+  | _ => false
+  end.
+
 (** both / neither of shape and spacing *)
 Definition one_of (shape_given spacing_given : bool) : bool := xorb shape_given spacing_given.
 
@@ -129,6 +138,9 @@ Definition fit_input_consistent_strict coords data weights : Prop :=
 Definition region_valid (r : list Z) : Prop :=
   exists w e s n, r = [w; e; s; n] /\ (w <= e)%Z /\ (s <= n)%Z.
 
+Definition region_valid_d (r : list D) : Prop :=
+  exists w e s n, r = [w; e; s; n] /\ (D2Q w <= D2Q e)%Q /\ (D2Q s <= D2Q n)%Q.
+
 (** ------------------------------------------------------------------ *)
 (** the call forms of the malformed stream *)
 Inductive call :=
@@ -137,6 +149,7 @@ Inductive call :=
 | CDataNames (ndata : nat) (names : option nat)
 | CExtraNames (ncoords : nat) (names : option nat)
 | CRegion (r : list Z)
+| CRegionD (r : list D)
 | CGrid (r : list Z) (shape_given : bool) (spacing_len : option nat)
 | COneOf (shape_given spacing_given : bool)
 | CVecSpline (coords data : list shape) (weights : list (option shape))
@@ -150,6 +163,7 @@ Definition run (c : call) : bool :=
   | CDataNames n nm => check_data_names n nm
   | CExtraNames n nm => check_extra_coords_names n nm
   | CRegion r => check_region r
+  | CRegionD r => check_region_d r
   | CGrid r sh sp => grid_args r sh sp
   | COneOf sh sp => one_of sh sp
   | CVecSpline co d w => vectorspline_fit co d w
